@@ -23,6 +23,16 @@ def ids_fit(m, *vals):
 # ------------------------------------------------------------------ the property predicate on observations
 def predicate(case, i, tb, stale_candidates):
     st, o, ref = case.steps[i], case.obs[i], case.ref_hist[i]
+    if st['k'] == 'R' and o['status'] == 'panic' and not os.environ.get('VFS_AUDIT6_OFF') and st['ino'] != ROOT_INO and st['op'] not in ('rename', 'link', 'batch_forget'):
+        # translation must not fail on a well-formed mapping: every id is u32 and internal+range, external+range <= 2^32, so
+        # there-and-back stays within u32 (C14_remap_algebra); a panic here is an arithmetic overflow of the translation
+        t1 = target_of(ref, st['ino'])
+        if t1[0] == 'backend' and st['hdr'] == st['ino']:
+            M = mapping_of(case, ref, t1[3])
+            if M is not None and map_wf(M) and M[2] > 0:
+                return [('request panicked on backend %d (slot %d) although its mapping %s is well-formed; caller ids %s, ids to set %s, ids answered %s' % (
+                    t1[1], t1[3], M, [st['uid'], st['gid']], [st['auid'], st['agid']], [st['ans']['ent']['uid'], st['ans']['ent']['gid'], st['ans']['attr']['uid'], st['ans']['attr']['gid']]),
+                    dict(kind='panic-wf-mapping', op=st['op']))]
     if st['k'] != 'R' or o['status'] in ('panic', 'skipped'): return []
     op = st['op']; bad = []
     G = gmap_of(case.cfg)
@@ -203,6 +213,7 @@ def sc_degenerate(sess, rng, tb, maps, G=(0, 1000, 65536)):
             g.request(op, x, mode='s', name=('norm', 3), uid=G[1] + 7, gid=G[1] + G[2] - 1, size=4096, offset=0, limit=10,
                       ans=mk_ans(ent=e, attr={'ino': 9, 'uid': G[0], 'gid': G[0] + 9, 'tag': 2}, dir=[(31, 7, e)]))
         setattr_block(g, x, G)
+        if D[2] > 1000 and map_wf(D): setattr_block(g, x, D)      # ids at both ends of the mount's OWN (large) range, both directions
     if not c.dead: c07.probe_mount_paths(g, c, [])      # mount roots through lookup / readdirplus / getattr
     return c
 
@@ -315,7 +326,9 @@ def run_check(tier, seed):
         ev.cov['translator_assumed_shapes'] = [m['name'] + ': ' + m['vfs']['shape'] for m in t['methods'] if m['vfs'] and str(m['vfs'].get('shape', '')).startswith('assumed')]
     except vfs_src.TranslateError as ex:
         broken.append({'kind': 'translator', 'item': 'props/vfs_src.py', 'error': str(ex)})
+    import pure_tie; pure_tie.prepare(PROP, ev, broken)      # Gen/RustPure.v from the function bodies in REPO (PROP_src_* theorems)
     audit = std_audit(ev, PROP, broken)
+    pure_tie.after_audit(PROP, broken)                         # a source tie broke: look for a concrete differing input
     okm, outm = coq_make(['Model/VfsRun.vo'])
     if not okm:
         es = coq_error_site(outm)
